@@ -1,6 +1,7 @@
 package dsim
 
 import (
+	"context"
 	"crypto/tls"
 	"fmt"
 	"io"
@@ -108,6 +109,7 @@ type sentMsg struct {
 }
 
 type peerConn struct {
+	cancel     context.CancelFunc // the application's own cancellable context hung on this connection
 	idx        int
 	name       string
 	sc         *SimConn
@@ -144,6 +146,7 @@ type invocation struct {
 }
 
 type srvWorld struct {
+	ctxPlay  bool // handlers hang a cancellable context on their connection and cancel it later
 	e        *Env
 	cfg      srvCfg
 	mux      *diam.ServeMux
@@ -218,6 +221,9 @@ func newSrvWorld(e *Env, cfg srvCfg) *srvWorld {
 		e.Probe("default-serve-mux")
 	}
 	w.regs = refRegs{idx: map[[3]uint32]string{}, name: map[string]string{}}
+	if cfg.prop == "C08" && e.T.Chance(1, 4) {
+		w.ctxPlay = true
+	}
 	return w
 }
 
@@ -261,7 +267,24 @@ func (w *srvWorld) handler(hname string) diam.HandlerFunc {
 			w.parked = append(w.parked, inv)
 			e.ParkBegin(true)
 		}
+		var pcx *peerConn
+		if w.ctxPlay && inv.conn >= 0 && inv.conn < len(w.conns) {
+			pcx = w.conns[inv.conn]
+		}
 		w.mu.Unlock()
+		if pcx != nil {
+			// the application's own bookkeeping: the first handler hangs a cancellable context
+			// (derived from the connection's) on the connection, a later one that is about to
+			// wait cancels it. Its business only: the connection is served as before.
+			if pcx.cancel == nil {
+				ctx, cancel := context.WithCancel(c.Context())
+				c.SetContext(ctx)
+				pcx.cancel = cancel
+			} else if pl.park {
+				pcx.cancel()
+				e.Probe("application-context-cancelled-while-handler-waits")
+			}
+		}
 		e.Poke()
 		if pl.park {
 			<-inv.rel // accounted under w.mu above; un-accounted by the releaser
